@@ -63,6 +63,13 @@ PINNED = [
     ("src/sourmash/sbtmh.py", None, "load_sbt_index"),
     ("src/sourmash/sbt_storage.py", "FSStorage", "__init__"),
     ("src/sourmash/sbt_storage.py", "FSStorage", "load"),
+    ("src/sourmash/sbt_storage.py", "ZipStorage", "load"),
+    ("src/sourmash/sbt.py", "Node", "data"),
+    ("src/sourmash/sbt.py", "Leaf", "data"),
+    ("src/sourmash/sbtmh.py", "SigLeaf", "data"),
+    ("src/sourmash/index/__init__.py", "ZipFileLinearIndex", "_load_manifest"),
+    ("src/sourmash/index/__init__.py", "ZipFileLinearIndex", "load"),
+    ("src/sourmash/index/__init__.py", "ZipFileLinearIndex", "signatures"),
     ("src/sourmash/nodegraph.py", None, "extract_nodegraph_info"),
     ("src/sourmash/lca/lca_db.py", "LCA_Database", "__init__"),
     ("src/sourmash/lca/lca_db.py", "LCA_Database", "load"),
@@ -533,7 +540,49 @@ def x_chain(report):
             f"def c20ChainCaught : List String := {_lean_list(caught)}\n")
 
 
-EXTRACTORS = [("c20_pins", x_pins), ("c20_manifest", x_manifest), ("c20_picklist", x_picklist), ("c20_lca", x_lca),
+# --------------------------------------------------------------------------------------------- lazy node / leaf loaders
+
+def _swallowed_around(fn_node, what):
+    """classes caught (and not re-raised) by a try around `self.storage.load(self._path)` inside a `data` getter"""
+    src = ast.unparse(fn_node)
+    if "self.storage.load(self._path)" not in src:
+        raise Unrecognised(what, "no longer calls self.storage.load(self._path)")
+    sw = []
+    for n in ast.walk(fn_node):
+        if isinstance(n, ast.Try) and "self.storage.load(self._path)" in ast.unparse(ast.Module(body=n.body, type_ignores=[])):
+            for h in n.handlers:
+                if any(isinstance(s, ast.Raise) for s in ast.walk(h)):
+                    continue
+                sw += _exc_names(h.type)
+    return sw
+
+
+def x_nodes(report):
+    def getter(rel, cls):
+        hits = [n for n in _find(rel, cls, "data") if isinstance(n, ast.FunctionDef)
+                and any(isinstance(d, ast.Name) and d.id == "property" for d in n.decorator_list)]
+        if len(hits) != 1:
+            raise Unrecognised(f"{cls}.data", "property getter not found")
+        return hits[0]
+    node = _swallowed_around(getter("src/sourmash/sbt.py", "Node"), "Node.data")
+    leaf = _swallowed_around(getter("src/sourmash/sbt.py", "Leaf"), "Leaf.data") + \
+        _swallowed_around(getter("src/sourmash/sbtmh.py", "SigLeaf"), "SigLeaf.data")
+    zl = ast.unparse(_fn("src/sourmash/sbt_storage.py", "ZipStorage", "load"))
+    m = re.search(r"except ValueError:\s+raise (\w+)\(path\)", zl)
+    if not m or zl.count("except ") != 1:
+        raise Unrecognised("ZipStorage.load", "the mapping of native ValueError-class failures changed")
+    fl = ast.unparse(_fn("src/sourmash/sbt_storage.py", "FSStorage", "load"))
+    _has(fl, "path = Path(self.location) / self.subdir / path return path.read_bytes()", "FSStorage.load")
+    report["outputs"]["c20_nodes"] = {"Node.data swallows": node, "Leaf.data swallows": sorted(set(leaf)), "ZipStorage.load maps ValueError to": m.group(1)}
+    return (f"\n/-- sbt.py `Node.data` / `Leaf.data`, sbtmh.py `SigLeaf.data`: exception classes of `storage.load` that the lazy loader "
+            f"catches WITHOUT re-raising (the data is then something else than what was saved) -/\n"
+            f"def c20NodeDataSwallows : List String := {_lean_list(node)}\n"
+            f"def c20LeafDataSwallows : List String := {_lean_list(sorted(set(leaf)))}\n"
+            f"/-- sbt_storage.py `ZipStorage.load`: native failures mapped to ValueError come out as this class -/\n"
+            f"def c20ZipLoadValueErrorBecomes : String := {_lean_str(m.group(1))}\n")
+
+
+EXTRACTORS = [("c20_nodes", x_nodes), ("c20_pins", x_pins), ("c20_manifest", x_manifest), ("c20_picklist", x_picklist), ("c20_lca", x_lca),
               ("c20_sbt", x_sbt), ("c20_chain", x_chain)]
 SERVES = ["C20"]
 
